@@ -156,6 +156,9 @@ func (r *Report) Finish(verifDir string, ctx *Ctx, loadErr error) int {
 			nHeld++
 		case "info":
 			nInfo++
+			if os.Getenv("RR_DUMP_INFO") != "" {
+				fmt.Printf("  info %s %s at %s: %s\n", o.Rule, o.Key, o.Pos, o.Msg)
+			}
 		case "violated":
 			if k, ok := open[o.Rule+"|"+o.Key]; ok {
 				o.Verdict = "known-finding"
